@@ -37,7 +37,9 @@ theorem C12_kept_means {h h' : Heap H} (k : HKeeps h h') :
     (∀ (s : Slice), s.arr < h.u32s.length → readU32 h' s = readU32 h s) ∧
     (∀ (zero : H) p, p < h.hashes.length → deref zero h' p = deref zero h p) := k.meaning
 
-/-- **Frame, unconditionally.**  For EVERY heap, EVERY message object (well formed or not), every growth policy:
+/-- **Frame, unconditionally.**  For EVERY heap, EVERY message object the model can represent (slice headers out of
+range or dangling pointers included — there the statement is about the totalised reads; a NIL entry in a caller-built
+`msg.Hashes`, on which Go panics, is not representable), every growth policy:
 `NewMerkleBlockFromMsg(msg)` followed by `ExtractMatches()` writes to no hash object and no array that existed before
 the call (so `msg.Hashes` with its spare capacity, every hash object and `msg.Flags` are unchanged) and leaves the
 `Tx` wrappers alone.  The object keeps the caller's slice header `msg.Hashes`; its `bits`, and the two slices
